@@ -335,6 +335,29 @@ func generate(a wh.Args, out *wh.Out) {
 		}
 	}
 
+	// volume cases (many keys expiring together with a few probes) also mostly wait: background
+	type volRes struct{ req, obs string }
+	var volAll []volRes
+	vols := []string{"volume repo 100 6000 20", "volume mw 400 8000 20", "volume dec 400 8000 20", "volume repo 200 20000 24"}
+	if thorough {
+		vols = append(vols, "volume repo 200 60000 30", "volume mw 600 30000 20", "volume dec 600 30000 20",
+			"volume repo 20 5000 20", "volume repo 100 1500 10", "volume mw 300 6000 16", "volume dec 300 6000 16")
+	}
+	for _, req := range vols {
+		req := req
+		expWg.Add(1)
+		go func() {
+			defer expWg.Done()
+			_, obs, err := runReq(req)
+			if err != nil {
+				panic(err)
+			}
+			expMu.Lock()
+			volAll = append(volAll, volRes{req, obs})
+			expMu.Unlock()
+		}()
+	}
+
 	maxLen, nSeq, nConc, nHist := 5, 500, 128, 45
 	if thorough {
 		maxLen, nSeq, nConc, nHist = 7, 8000, 1280, 540
@@ -394,5 +417,11 @@ func generate(a wh.Args, out *wh.Out) {
 		out.Count("expire." + e.via)
 		out.Case(histReq(time.Duration(e.ms)*time.Millisecond, e.via, e.evs), "lin")
 		out.Add("expire.polls", len(e.evs))
+	}
+	for _, v := range volAll {
+		out.Case(v.req, v.obs)
+		out.Count("volume." + strings.Fields(v.req)[1])
+		n, _ := strconv.Atoi(strings.Fields(v.req)[3])
+		out.Add("volume.keys", n)
 	}
 }
